@@ -46,4 +46,40 @@ theorem collectOverrides_lookup (deps : List (Str × Str)) (k : Str) :
   rw [collectOverrides, foldl_overrides]
   cases lastOverride deps k <;> simp [amGet]
 
+
+theorem amGet_none_of_not_mem {β} (m : List (Str × β)) (k : Str) (h : k ∉ m.map (·.1)) : amGet m k = none := by
+  induction m with
+  | nil => simp [amGet]
+  | cons e r ih =>
+    obtain ⟨a, b⟩ := e
+    simp only [List.map_cons, List.mem_cons, not_or] at h
+    have : (a == k) = false := by
+      simp only [beq_eq_false_iff_ne, ne_eq]; exact fun h' => h.1 h'.symm
+    simp [amGet, this, ih h.2]
+
+/-- with pairwise distinct file stems every plug is a group of its own, in argument order -/
+theorem groupByStem_distinct (plugs : List Str) (acc : List (Str × List Str))
+    (h : (acc.map (·.1) ++ plugs.map stemOf).Nodup) :
+    plugs.foldl groupStep acc = acc ++ plugs.map (fun p => (stemOf p, [p])) := by
+  induction plugs generalizing acc with
+  | nil => simp
+  | cons p rest ih =>
+    have hfresh : stemOf p ∉ acc.map (·.1) := by
+      intro hm
+      exact (List.nodup_append.1 h).2.2 _ hm _ (by simp) rfl
+    simp only [List.foldl_cons, groupStep, amGet_none_of_not_mem acc _ hfresh]
+    rw [ih]
+    · simp
+    · simp only [List.map_append, List.map_cons, List.map_nil, List.append_assoc, List.cons_append,
+        List.nil_append]
+      simpa using h
+
+theorem singleton_groups (l : List Str) :
+    l.flatMap (fun a => groupPackages (stemOf a, [a])) = l.map (fun p => ("plug:".toList ++ stemOf p, p)) := by
+  induction l with
+  | nil => rfl
+  | cons p rest ih =>
+    simp only [List.flatMap_cons, List.map_cons, ih]
+    simp [groupPackages, List.range, List.range.loop]
+
 end Wac.Lemmas.Cli
